@@ -283,6 +283,22 @@ def run_network(ctx, ds, shape, s, ftype, upa_kind, upa_arr, upa_int, methods=ME
         _add_error(ctx, {"op": "upscale_error", "method": method, **base}, ds, o, cds, ints(err), None,
                    tuple(err.shape) == shape1 and err.dtype == np.uint8, nontriv)
 
+    # the connection check of an EARLIER result, asked again after the object has upscaled with other methods (same
+    # coarse shape, other outlet pixels): the answer depends only on the arguments
+    if len(results) >= 2:
+        for method, (flw1, out, cds, o) in list(results.items())[:-1]:
+            try:
+                err2 = flw.upscale_error(flw1, out)
+            except Exception as e:  # noqa: BLE001
+                ctx.evaluations += 1
+                ctx.fail({"op": "upscale_error(re-check)", "method": method, **base}, "spec",
+                         f"upscale_error raised {exc_class(e)}: {str(e)[:80]}")
+                continue
+            ctx.count("upscale_error:re-check-after-other-methods")
+            links = sum(1 for c in range(len(cds)) if cds[c] != n1 and cds[c] != c)
+            _add_error(ctx, {"op": "upscale_error(re-check)", "method": method, "after": list(results), **base}, ds, o, cds,
+                       ints(err2), None, tuple(err2.shape) == shape1 and err2.dtype == np.uint8, n1 >= 2 and links >= 1)
+
     if "ihu" in results and "eam_plus" in results:
         if results["ihu"][2] != results["eam_plus"][2]:
             ctx.count("feature:ihu-links-differ-from-first-pass")
